@@ -3,6 +3,7 @@
 #define TETL_NUMERIC_GCD_HPP
 
 #include <etl/_type_traits/common_type.hpp>
+#include <etl/_type_traits/is_signed.hpp>
 
 namespace etl {
 
@@ -16,7 +17,11 @@ template <typename M, typename N>
 [[nodiscard]] constexpr auto gcd(M m, N n) noexcept -> etl::common_type_t<M, N>
 {
     if (n == 0) {
-        return m;
+        if constexpr (etl::is_signed_v<M>) {
+            return static_cast<etl::common_type_t<M, N>>(m < 0 ? -m : m);
+        } else {
+            return m;
+        }
     }
     return gcd<M, N>(n, m % n);
 }
